@@ -284,7 +284,7 @@ fn stamps(rng: &mut Rng, u: U) -> Vec<i64> {
 
 fn main() {
     let mut ctx = Ctx::from_args("C16");
-    let reps = ctx.budget(6, 120);
+    let reps = ctx.budget(30, 600);
     for _ in 0..reps {
         if let Some(mut rng) = ctx.random_case() {
             for from in UNITS {
